@@ -175,7 +175,7 @@ var c10Lens = []int{1, 15, 16, 17, 2047, 2048, 2049, 4096, c10Sectors * 2048}
 func TestC10(t *testing.T) {
 	r := NewReporter(t)
 	defer r.Done()
-	r.Rule("12-sector images with position-dependent content x 4 disc keys x every plain-region table with 2 regions (all border triples in [0,14]) and 3 regions (monotone borders) + count 255 + borders at 2^21-1..0xFFFFFFF0 sectors + clearly invalid tables + 3k3y images with an embedded key opened through the serving filesystem for every valid table whose first plain region ends at sector 1..3 (the watermark area then lies partly in an encrypted region) + one sparse image of 4 GiB + 128 KiB read around the 4 GiB mark x {clearRegions 0/1} x underlying Read capped at {none,1,16,2047,2048} x op sequences of depth <= 2 over Read/Seek/ReadAt at sector/region borders +-1,+-16; oracle = reference AES-CBC written on raw block calls; distinct by (table, key, clear, cap, op sequence)")
+	r.Rule("12-sector images with position-dependent content x 4 disc keys x every plain-region table with 2 regions (all border triples in [0,14]) and 3 regions (monotone borders) + count 255 + borders at 2^21-1..0xFFFFFFF0 sectors + clearly invalid tables + 3k3y images with an embedded key opened through the serving filesystem for every valid table whose first plain region ends at sector 1..3 (the watermark area then lies partly in an encrypted region) + one sparse image of 4 GiB + 128 KiB read around the 4 GiB mark x {clearRegions 0/1} x underlying Read capped at {none,1,16,2047,2048} x op sequences of depth <= 2 over Read/Seek/ReadAt at sector/region borders +-1,+-16; oracle = reference AES-CBC written on raw block calls; distinct by (table, key, clear, cap, op sequence); histories that come back to an earlier position inside an encrypted sector after an unaligned read elsewhere (1152 six-operation sequences per table for every fourth valid table)")
 	dir := filepath.Join(scratchBase(), sprintf("verifh-c10-%d", os.Getpid()))
 	must(os.MkdirAll(dir, 0o755))
 	defer os.RemoveAll(dir)
@@ -357,6 +357,33 @@ func TestC10(t *testing.T) {
 					// a refused seek (to before the start) leaves the cursor where it was
 					runSeq([]ioOp{{Kind: "read", N: n1}, {Kind: "seek", Off: -1, Whence: io.SeekStart}, {Kind: "read", N: 2049}, {Kind: "seek", Off: -int64(n1) - 5000, Whence: io.SeekCurrent}, {Kind: "read", N: 100}})
 					runSeq([]ioOp{{Kind: "seek", Off: 2047, Whence: io.SeekStart}, {Kind: "seek", Off: -1 << 40, Whence: io.SeekEnd}, {Kind: "read", N: n1}})
+				}
+				// coming back to an earlier position: read up to a place inside an encrypted sector (on and off the cipher's
+				// block grid), read something unaligned elsewhere (same sector, another encrypted sector, a plain one), come
+				// back and go on - whatever state the view keeps from the first read must not be taken for current
+				if cp == 0 && cls == "valid" && (ti%4 == 0 || r.Thorough()) {
+					var encS []int64
+					for i := 1; i < int(tb.count) && 2*i < len(tb.pairs); i++ {
+						for sct := int64(tb.pairs[2*i-1]) + 1; sct < int64(tb.pairs[2*i]) && sct < c10Sectors && len(encS) < 2; sct += max(1, int64(tb.pairs[2*i])-int64(tb.pairs[2*i-1])-2) {
+							encS = append(encS, sct)
+						}
+					}
+					for si, sct := range encS {
+						other := encS[(si+1)%len(encS)]
+						for _, d1 := range []int64{0, 16, 1024, 5} {
+							for _, n1 := range []int{16, 32, 1000, 1024} {
+								for _, p2 := range []int64{sct*2048 + 1, other*2048 + 3, 5} {
+									for _, n2 := range []int{1, 15, 17, 100} {
+										for _, n3 := range []int{16, 48, 2048} {
+											p1 := sct*2048 + d1
+											runSeq([]ioOp{{Kind: "seek", Off: p1, Whence: io.SeekStart}, {Kind: "read", N: n1}, {Kind: "seek", Off: p2, Whence: io.SeekStart}, {Kind: "read", N: n2},
+												{Kind: "seek", Off: p1 + int64(n1), Whence: io.SeekStart}, {Kind: "read", N: n3}})
+										}
+									}
+								}
+							}
+						}
+					}
 				}
 				// an I/O error of the underlying file at the k-th operation: the failing call reports an error, and
 				// whatever is read afterwards must again be reference plaintext of some position between the old
